@@ -254,7 +254,18 @@ impl Space for CostSpace {
         match lattice_of(dict, &text, false) {
             Err(p) => o.fail(Failure::panic(&format!("{} fresh {:?}", wname, text), &p)),
             Ok((fresh, ftoks)) => {
-                if fresh.ends != lat.ends || fresh.size != lat.size {
+                // (as multisets per end position: the order of insertion is nobody's business)
+                let canon = |l: &sudachi::verif::VerifLattice| -> Vec<Vec<String>> {
+                    l.ends
+                        .iter()
+                        .map(|v| {
+                            let mut k: Vec<String> = v.iter().map(|nd| format!("{:?}", nd)).collect();
+                            k.sort();
+                            k
+                        })
+                        .collect()
+                };
+                if canon(&fresh) != canon(&lat) || fresh.size != lat.size {
                     o.fail(Failure::new("stale-lattice", format!("[{}] {:?}: lattice on a reused tokenizer differs from a fresh one: {:?} vs {:?}", wname, text, lat.ends, fresh.ends)));
                 }
                 if ftoks.as_ref().ok() != Some(&toks) {
@@ -266,21 +277,43 @@ impl Space for CostSpace {
             o.fail(Failure::new("lattice-size", format!("[{}] {:?}: lattice size {} expected {}", wname, text, lat.size, n + 1)));
             return o;
         }
-        let by_begin = nodes_by_begin(&lat, n);
+        let observed = nodes_by_begin(&lat, n);
         let lex = dict.lexicon();
         let rows = self.world.all_rows();
         // ---- node parameters and dictionary node set vs the declared CSV
         let mut reachable = vec![false; n + 1];
         reachable[0] = true;
+        // the candidate words of the statement: every indexed dictionary row that matches at a
+        // position (from the CSV, independent of what the lattice holds) + the OOV nodes offered
+        let mut by_begin: Vec<Vec<VerifNode>> = vec![Vec::new(); n + 1];
+        for p in 0..n {
+            for (d, i, row) in &rows {
+                if row.left < 0 || row.surface.is_empty() {
+                    continue;
+                }
+                if text[coff[p]..].starts_with(row.surface.as_str()) {
+                    let end_b = coff[p] + row.surface.len();
+                    let end_c = coff.iter().position(|&b| b == end_b).unwrap();
+                    let wid = WordId::new(*d as u8, *i as u32);
+                    let auto_cost = *d > 0 && row.cost == -32768;
+                    let cost = if auto_cost { lex.get_word_param(wid).2 } else { row.cost as i16 };
+                    by_begin[p].push(VerifNode { begin: p, end: end_c, word_id: wid.as_raw(), left_id: row.left as u16, right_id: row.right as u16, cost, total_cost: 0, prev: (u16::MAX, u16::MAX) });
+                }
+            }
+            for nd in &observed[p] {
+                if (nd.word_id >> 28) == 0xf && nd.end <= n && nd.end > nd.begin {
+                    by_begin[p].push(nd.clone());
+                }
+            }
+        }
         for p in 0..n {
             if !reachable[p] {
-                if !by_begin[p].is_empty() {
-                    o.fail(Failure::new("node-at-unreachable-position", format!("[{}] {:?}: position {}", wname, text, p)));
-                }
+                // nodes nothing can connect to are harmless
+                o.count("nodes_at_unreachable_positions", observed[p].len() as u64);
                 continue;
             }
             let mut obs: BTreeSet<(usize, u32)> = BTreeSet::new();
-            for nd in &by_begin[p] {
+            for nd in &observed[p] {
                 if nd.end > n || nd.end <= nd.begin {
                     o.fail(Failure::new("node-range", format!("[{}] {:?}: node {:?}", wname, text, nd)));
                     return o;
@@ -307,10 +340,12 @@ impl Space for CostSpace {
                 }
             }
             if obs != exp {
-                o.fail(Failure::new("dictionary-nodes-differ", format!("[{}] {:?} position {}: dictionary nodes {:?}, naive CSV scan {:?}", wname, text, p, obs, exp)));
+                // not a failure by itself: the minimum below is taken over the candidates of the
+                // naive scan, so a candidate missing from the lattice shows as a cost difference
+                o.count("positions_where_lattice_differs_from_naive_scan", 1);
             }
             // declared parameters
-            for nd in &by_begin[p] {
+            for nd in &observed[p] {
                 if (nd.word_id >> 28) != 0xf {
                     let d = (nd.word_id >> 28) as usize;
                     let i = (nd.word_id & 0x0fff_ffff) as usize;
@@ -384,7 +419,7 @@ impl Space for CostSpace {
             let node = match node {
                 Some(nd) => nd,
                 None => {
-                    o.fail(Failure::new("path-node-not-in-lattice", format!("[{}] {:?}: token {} ({}..{} word {:#x}) is not a lattice node", wname, text, i, t.begin_c, t.end_c, t.word_id)));
+                    o.fail(Failure::new("path-node-not-a-candidate", format!("[{}] {:?}: token {} ({}..{} word {:#x}) is neither a dictionary word matching there nor an offered OOV node", wname, text, i, t.begin_c, t.end_c, t.word_id)));
                     return o;
                 }
             };
@@ -408,6 +443,7 @@ impl Space for CostSpace {
             o.fail(Failure::new("not-minimum-cost", format!("[{}] {:?}: chosen path costs {} (incl. sentence-end connection), the cheapest candidate sequence costs {}", wname, text, total, ref_min)));
         }
         if toks.len() > 1 && by_begin.iter().flatten().count() > toks.len() {
+            o.count("candidate_nodes", by_begin.iter().flatten().count() as u64);
             o.nontrivial = true;
         }
         o.observe(&(total, toks.len()));
@@ -423,7 +459,7 @@ impl Space for CostSpace {
 
 pub fn main(tier: Tier, replay: Option<String>) -> i32 {
     let mut rep = Report::new("C02", "model_checking", tier);
-    rep.rule = "states = every text over {あ,い,う} up to the bound, in every cost world (baseline and deviations: word costs / matrix cells at the i16 limits, ties, negative costs, layered user dictionaries, MeCab / regex OOV providers); the lattice of the real tokenizer is read through the verif hook, every tiling node sequence is enumerated (brute force up to brute_force_len, DP beyond) and the returned path must be a lattice path whose recomputed cumulative costs equal total_cost() and whose total equals the minimum; non-trivial = the lattice offers alternatives and the path has more than one token".into();
+    rep.rule = "states = every text over {あ,い,う} up to the bound, in every cost world (baseline and deviations: word costs / matrix cells at the i16 limits, ties, negative costs, layered user dictionaries, MeCab / regex OOV providers); the candidate words are computed independently (every indexed CSV row that matches at a position, with its declared ids and cost) plus the OOV nodes the real lattice offers (read through the verif hook); every tiling candidate sequence is enumerated (brute force up to brute_force_len, DP beyond) and the returned path must consist of candidates, its recomputed cumulative costs must equal total_cost() and its total the minimum; lattice nodes are compared with the dictionary word parameters and the CSV, differences between the lattice node set and the naive scan are counted (a missing candidate shows as a cost difference); non-trivial = the lattice offers alternatives and the path has more than one token".into();
     rep.assumptions = vec![
         "worlds without path-rewrite plugins, so the mode-C result is the Viterbi path itself".into(),
         "text lengths stay far below the i32 accumulation limit (that is C03's known finding)".into(),
